@@ -39,6 +39,11 @@ def enumerate_faults(project):
         # one real file configured under two names (a symbolic link and its target, same patterns): whichever entry comes
         # later in the config additionally names a pattern that occurs nowhere
         faults.append({"kind": "alias_extra"})
+    for i, f in enumerate(project["files"]):
+        if not f.get("symlink_to"):
+            # the file is there but cannot be opened for reading (permissions, a stale mount): like a missing file, the rewrite
+            # phase cannot complete
+            faults.append({"kind": "unreadable", "path": f["path"], "errno": [13, 5, 116][i % 3]})
     for sv in ("lower", "equal", "junk", "trailing"):
         faults.append({"kind": "reject", "sv": sv})
     faults.append({"kind": "nochange"})
@@ -227,9 +232,10 @@ class FaultPos:
             facts = {"pattern": pattern, "fault": fault["kind"], "mode": plan["mode"], "legacy": legacy.is_legacy(pattern),
                      "vcs": project["vcs"] is not None}
             dry_failed = None
+            io_fault = {"path": fault["path"], "errno": fault["errno"], "mode": "read"} if fault["kind"] == "unreadable" else None
             if plan["mode"] == "dry+update":
                 shim = fakevcs.VcsShim(w.repo) if w.repo else None
-                rd = invoker.invoke(w.dir, ["update", "--dry"] + argv, clock, shim, fakevcs.HookShim({}))
+                rd = invoker.invoke(w.dir, ["update", "--dry"] + argv, clock, shim, fakevcs.HookShim({}), write_fault=io_fault)
                 ctx.invocations += 1
                 dry_failed = rd.exit_code != 0
                 if rd.changed:
@@ -238,10 +244,13 @@ class FaultPos:
                     ctx.violation("C06", "dry_missed_fault", facts,
                                   "`update --dry %s` exited 0 although %s" % (argv, fault))
             shim = fakevcs.VcsShim(w.repo) if w.repo else None
-            res = invoker.invoke(w.dir, ["update"] + argv, clock, shim, fakevcs.HookShim({}))
+            res = invoker.invoke(w.dir, ["update"] + argv, clock, shim, fakevcs.HookShim({}), write_fault=io_fault)
             ctx.invocations += 1
             ctx.event(fault, plan["order"], plan["mode"], res.exit_code, invoker.digest_snapshot(res.after))
-            ctx.fault("fs_" + fault["kind"] if fault["kind"] in ("break", "remove", "break+cover") else
+            if io_fault and not sum(e.get("fired", 0) for e in res.events if e.get("kind") == "io_fault"):
+                ctx.count("read_fault_not_reached")
+                continue
+            ctx.fault("fs_" + fault["kind"] if fault["kind"] in ("break", "remove", "break+cover", "unreadable") else
                       ("config_" + fault["kind"] if fault["kind"] in ("cover", "alias_extra") else "version_" + fault["kind"]))
             ctx.nontriv((runner.short_hash(project["cfg"]["file_patterns"]), runner.short_hash(fault), plan["order"], plan["mode"]))
             ctx.transition((fault["kind"], plan["mode"], res.exit_code, project["vcs"] is not None))
